@@ -15,7 +15,10 @@ META = dict(
                "changes, in every sub-tick from any state, no record of a method line, no interrupt, macro, block tag, "
                "base unit or other generator (neutral_snippet_subtick_frame, induction over the micro-steps; "
                "inject_and_first_subtick_keep_method_flags); the generator registered for the injected wrapper starts "
-               "the injected body at most once in its life under every environment (injected_body_starts_at_most_once). "
+               "the injected body at most once in its life under every environment (injected_body_starts_at_most_once), "
+               "and over any whole run of ticks, command completions, cancel and force requests after an injection the "
+               "injected body starts at most once in total: no second generator is ever registered for the wrapper and no "
+               "other generator reaches it (injected_body_starts_at_most_once_in_a_run; programs without Call macro). "
                "The clause about edits is refuted for the code as it is by a kernel-evaluated witness "
                "(C14_counterexample) and the as-is behaviour is characterised (a merge keeps only interrupts whose "
                "line id exists in the new method); a second witness shows that an injected Block never ends "
@@ -29,8 +32,8 @@ META = dict(
                "in the new method); an injected Block never ends (End block looks for locked blocks in the program "
                "only). Oracle-only (the engine's pause/hold gate, the CommandManager and the run log are not in M3/M4): "
                "'only while not paused or held', 'injection does not change pause/hold', 'command finalized', 'exactly "
-               "once' for the whole run (proved: at most one body start per registered generator; not proved: that no "
-               "second generator is ever registered for the wrapper and that no other generator reaches it), and "
+               "once' in the sense of 'does run' and for the individual lines of the snippet (proved: the injected body "
+               "starts at most once in any run, for programs without Call macro; the lines inside it are C02's matter), and "
                "'method progress unchanged' beyond the per-sub-tick frame theorem (no two-run simulation). Methods of "
                "the oracle cases are block-free so that the fixed horizon is no source of alarms. Trusted: Lean "
                "kernel, harness.",
@@ -40,7 +43,8 @@ META = dict(
 MODULE = "OPM.Properties.C14"
 REQUIRED = ["OPM.C14.inject_keeps_method_flags", "OPM.C14.inject_registers_once",
             "OPM.C14.neutral_snippet_subtick_frame", "OPM.C14.inject_and_first_subtick_keep_method_flags",
-            "OPM.C14.injected_body_starts_at_most_once", "OPM.C14.C14_counterexample",
+            "OPM.C14.injected_body_starts_at_most_once", "OPM.C14.injected_body_starts_at_most_once_in_a_run",
+            "OPM.C14.C14_counterexample",
             "OPM.C14.C14_witness_injected_block_never_ends", "OPM.C14.merge_keeps_only_known_interrupts"]
 STATS: Counter = Counter()     # input distribution seen by the oracle (copied into the evidence by run())
 
